@@ -61,7 +61,7 @@ class Models:
     def member_access(self, unit, n, base_text):
         base = unit.kids(n)[0]
         bt = (base.get('type', {}).get('desugaredQualType') or base.get('type', {}).get('qualType', '')).replace('const ', '').replace('struct ', '').replace('*', '').strip()
-        if bt in ('iovec', 'timeval', 'timespec', 'tm', 'timezone', 'epoll_event', 'epoll_data', 'epoll_data_t', 'fd_set', 'sigaction', 'sockaddr_in', 'sockaddr'):
+        if bt in ('iovec', 'timeval', 'timespec', 'tm', 'timezone', 'epoll_event', 'epoll_data', 'epoll_data_t', 'fd_set', 'sigaction', 'sockaddr_in', 'sockaddr', 'ucontext_t', 'stack_t'):
             return '%s%s%s' % (base_text, '->' if n.get('isArrow') else '.', n['name'])     # plain C struct of the system headers
         for p in self.plugins:
             r = p.member_access(unit, n, base_text)
